@@ -119,6 +119,12 @@ def run(ctx, rep):
     progs += PG.gen_programs(ctx.rng('unres2'), 100 if ctx.quick else 1000, tainted=False, second_unresolvable=True)
     # decorators that only wrap, stacked: one pass-through applied twice (two functions sharing a code object)
     progs += PG.gen_programs(ctx.rng('stack'), 80 if ctx.quick else 600, tainted=False, routes=['closure_stack'])
+    # decorators that only wrap, copying metadata: functools.wraps(callee) / update_wrapper over a callee
+    # whose __dict__ holds a stored __signature__ (assigned, upgraded, modifiers.annotate), which the
+    # wrapper inherits next to __wrapped__: the wrapper's own def is still what is analysed
+    progs += PG.gen_programs(ctx.rng('wraps'), 90 if ctx.quick else 700, tainted=False, routes=['wraps_sig'])
+    # a dispatcher called with a run-time-only value before two known callables (it calls the first)
+    progs += PG.gen_programs(ctx.rng('pick'), 60 if ctx.quick else 500, tainted=False, routes=['chain_pick'])
     rep.rule = ('programs of the forwarding grammar (untainted): wrapper signatures with <=2 named parameters and a star, '
                 'callees from U(2), 1-2 forwarding calls with 0-2 literal positionals / keyword names / own star arguments, '
                 '11 statement contexts x 6 callee resolution routes (global, closure, attribute chain, self.method, parameter via partial, '
@@ -212,6 +218,7 @@ def prog_from_description(d, source):
     p.route = d['route']
     p.context = d['context']
     p.nosource = d.get('nosource', False)
+    p.wraps_kind = d.get('wraps_kind')
     p.source = source
     p.outer = parse_params(d['outer'])
     p.callees = {k: parse_params(v) for k, v in d['callees'].items()}
@@ -221,6 +228,7 @@ def prog_from_description(d, source):
         cc.nested = c['nested']
         cc.unresolvable = c.get('unresolvable', False)
         cc.inline = c.get('inline', False)
+        cc.tail = c.get('tail', 0)
         p.calls.append(cc)
     return p
 
